@@ -459,6 +459,29 @@ Fixpoint find_stuck (fuel : nat) (s : state) : bool :=
   | O => false
   | S f => stuck deps cbo s || existsb (find_stuck f) (succs deps cbo s)
   end.
+(* a run given by the index of the successor taken at each step (witnesses of the refutations) *)
+Fixpoint follow (s : state) (choices : list nat) : option state :=
+  match choices with
+  | [] => Some s
+  | c :: r => match nth_error (succs deps cbo s) c with Some s' => follow s' r | None => None end
+  end.
+
+(* depth-first search for such a run into a stuck state *)
+Fixpoint find_stuck_path (fuel : nat) (s : state) : option (list nat) :=
+  match fuel with
+  | O => None
+  | S f =>
+    if stuck deps cbo s then Some []
+    else
+      (fix try (i : nat) (ss : list state) : option (list nat) :=
+         match ss with
+         | [] => None
+         | s' :: r => match find_stuck_path f s' with
+                      | Some p => Some (i :: p)
+                      | None => try (S i) r
+                      end
+         end) 0 (succs deps cbo s)
+  end.
 End Explore.
 
 (* the confluence check of one request graph: the expected vector is the one of the
@@ -467,3 +490,24 @@ Definition seq_result (deps : list (list req)) (cbo : bool) (fuel : nat) : list 
   locks (run_first deps cbo fuel (init (length deps) 1)).
 Definition confluent_graph (fuel nthreads : nat) (deps : list (list req)) : bool :=
   check_all deps false fuel (init (length deps) nthreads) (seq_result deps false fuel).
+
+(* ---------------------------------------------------------------------------------- *)
+(* enumeration of all small request graphs without discarded errors (finite sweeps) *)
+Fixpoint lists_exact (n k : nat) : list (list req) :=
+  match k with
+  | O => [[]]
+  | S k' => flat_map (fun a => map (cons (a, false)) (lists_exact n k')) (seq 0 n)
+  end.
+Definition lists_upto (n k : nat) : list (list req) := flat_map (lists_exact n) (seq 0 (S k)).
+Fixpoint graphs_over (opts : list (list req)) (m : nat) : list (list (list req)) :=
+  match m with
+  | O => [[]]
+  | S m' => flat_map (fun l => map (cons l) (graphs_over opts m')) opts
+  end.
+(* all graphs with n units whose request lists have at most k entries *)
+Definition graphs (n k : nat) : list (list (list req)) := graphs_over (lists_upto n k) n.
+Definition small_graph (n k : nat) (deps : list (list req)) : Prop :=
+  length deps = n /\
+  Forall (fun l => length l <= k /\ Forall (fun r : req => fst r < n /\ snd r = false) l) deps.
+Definition sweep (fuel nthreads : nat) (gs : list (list (list req))) : bool :=
+  forallb (confluent_graph fuel nthreads) gs.
